@@ -141,6 +141,41 @@ func TestVerifReplay(t *testing.T) {
 '''
 
 
+RACE_TMPL = '''package %(pkgname)s
+
+import (
+	"fmt"
+	"sync"
+	"testing"
+
+	vr "github.com/free5gc/ike/internal/verifrt"
+)
+
+// The same harness on several goroutines, each with its own copy of the replay vector and its own
+// objects: under the race detector any write to state shared through the library shows as a data race.
+func TestVerifReplayRace(t *testing.T) {
+	var wg sync.WaitGroup
+	for i := 0; i < 4; i++ {
+		wg.Add(1)
+		go func() {
+			defer wg.Done()
+			defer func() {
+				if r := recover(); r != nil {
+					fmt.Printf("VERIF-PANIC %%v\\n", r)
+				}
+			}()
+			for k := 0; k < 20; k++ {
+				vr.Reset()
+				%(entry)s()
+			}
+		}()
+	}
+	wg.Wait()
+	fmt.Println("VERIF-RACE-REPLAY-DONE")
+}
+'''
+
+
 def pkg_name(pkg):
     d = os.path.join(REPO, pkg_dir(pkg))
     for f in sorted(os.listdir(d)):
@@ -162,6 +197,8 @@ def write_replay(outdir, name, job, model):
     test = TEST_TMPL % {"pkgname": pkg_name(pkg), "entry": job["entry"]}
     tpath = os.path.join(d, "zz_verif_replay_test.go")
     open(tpath, "w").write(test)
+    rpath = os.path.join(d, "zz_verif_race_test.go")
+    open(rpath, "w").write(RACE_TMPL % {"pkgname": pkg_name(pkg), "entry": job["entry"]})
     ov = overlay_json({os.path.join(REPO, pkg_dir(pkg), "zz_verif_replay_test.go"): tpath})
     json.dump(ov, open(os.path.join(d, "overlay.json"), "w"), indent=1)
     meta = {"pkg": pkg, "entry": job["entry"], "params": job["params"]}
@@ -169,17 +206,25 @@ def write_replay(outdir, name, job, model):
     return d
 
 
-def run_replay(d, timeout=120, vector=None):
-    """Runs the native replay in directory d; returns (output, timed_out)."""
+def run_replay(d, timeout=120, vector=None, race=False):
+    """Runs the native replay in directory d; returns (output, timed_out).  race: the concurrent replay
+    under the race detector (confirmation of C18 write-monitor findings)."""
     meta = json.load(open(os.path.join(d, "meta.json")))
     # regenerate the overlay (paths of harness files may have changed since the replay was written)
     tpath = os.path.join(d, "zz_verif_replay_test.go")
-    ov = overlay_json({os.path.join(REPO, pkg_dir(meta["pkg"]), "zz_verif_replay_test.go"): tpath})
+    extra = {os.path.join(REPO, pkg_dir(meta["pkg"]), "zz_verif_replay_test.go"): tpath}
+    rpath = os.path.join(d, "zz_verif_race_test.go")
+    if os.path.exists(rpath):
+        extra[os.path.join(REPO, pkg_dir(meta["pkg"]), "zz_verif_race_test.go")] = rpath
+    ov = overlay_json(extra)
     ovp = os.path.join(d, "overlay.json")
     json.dump(ov, open(ovp, "w"), indent=1)
     env = dict(GOENV, VERIF_REPLAY=vector or os.path.join(d, "vector.json"))
     rel = "./" + pkg_dir(meta["pkg"]) if pkg_dir(meta["pkg"]) else "."
     cmd = ["go", "test", "-overlay", ovp, "-vet=off", "-count=1", "-run", "^TestVerifReplay$", "-timeout", "%ds" % timeout, "-v", rel]
+    if race:
+        env["CGO_ENABLED"] = "1"
+        cmd = ["go", "test", "-race", "-overlay", ovp, "-vet=off", "-count=1", "-run", "^TestVerifReplayRace$", "-timeout", "%ds" % timeout, "-v", rel]
     try:
         r = subprocess.run(cmd, cwd=REPO, env=env, capture_output=True, text=True, timeout=timeout + 120)
         out = r.stdout + r.stderr
@@ -197,6 +242,10 @@ def confirm(label, site, out, timed_out):
             m = re.search(r"VERIF-PANIC (.*)", out)
             return True, (m.group(1) if m else "panic")
         return False, "no panic natively"
+    if label.startswith("c18.shared-write"):
+        if "DATA RACE" in out:
+            return True, "data race reported by the race detector in the concurrent native replay"
+        return False, "no data race in the concurrent native replay"
     if label in ("unwind", "c04.variant"):
         if timed_out:
             return True, "native run does not terminate within the time limit"
